@@ -32,6 +32,8 @@ structure St where
   failed : Bool := false              -- testState == TPM_TEST_STATE_FAILURE
   postInit : Bool := true             -- tpm_stany_flags.postInitialise
   bufMax : Nat := TPM_BUFFER_MAX      -- TPM12_GetBufferSize()
+  saved : Option (List Bytes) := none -- PCR part of the TPM_SaveState blob in storage (non-resettable PCRs are restored from it)
+  stateSaved : Bool := false          -- tpm_stany_flags.stateSaved
 deriving Repr, DecidableEq
 
 /-- PCR values after `TPM_MainInit` (`TPM_PCR_Init` for every index) -/
@@ -88,6 +90,7 @@ inductive Op
   | sha1Complete (d : Bytes)
   | sha1CompleteExtend (loc i : Nat) (d : Bytes)
   | other                                         -- any other ordinal: only its effect on the SHA-1 thread
+  | saveState                                     -- TPM_SaveState
   | hashStart
   | hashData (d : Bytes)
   | hashEnd
@@ -120,7 +123,16 @@ def step (H : Hash) (s : St) : Op → St × Obs
       if !s.postInit then (s, { rc := TPM_INVALID_POSTINIT })
       else if s.failed then ({ s with postInit := false }, { rc := TPM_FAILEDSELFTEST })
       else if stType = 1 then ({ s with postInit := false, tos := false }, { rc := 0 })
-      else (s, { rc := TPM_BAD_PARAMETER })        -- other startup types are outside this model (never sent)
+      else if stType = 2 then
+        -- TPM_Startup_State: without a saved state the TPM enters the failed state; with one, the PCRs whose
+        -- pcrReset attribute is FALSE get their saved values back (TPM_PCRs_Load), the others keep the TPM_Init values
+        match s.saved with
+        | none => ({ s with postInit := false, failed := true }, { rc := TPM_FAILEDSELFTEST })
+        | some ps =>
+          ({ s with postInit := false, tos := false,
+                    pcrs := (List.range s.pcrs.length).map fun i => if canReset i then s.pcrs.getD i [] else ps.getD i [] },
+           { rc := 0 })
+      else ({ s with postInit := false }, { rc := TPM_BAD_PARAMETER })   -- ST_DEACTIVATED is outside this model (never sent)
   | .extend loc i d =>
       let s := invalidateThread s
       let cs := checkState s
@@ -178,6 +190,10 @@ def step (H : Hash) (s : St) : Op → St × Obs
         -- outputs: hashValue, then outDigest (the new PCR value)
         if rc ≠ 0 then (s1, { rc := rc }) else (s', { rc := 0, out := h1 ++ pcr s' i })
   | .other => (invalidateThread s, { rc := 0 })
+  | .saveState =>
+      let s := invalidateThread s
+      let cs := checkState s
+      if cs ≠ 0 then (s, { rc := cs }) else ({ s with saved := some s.pcrs, stateSaved := true }, { rc := 0 })
   | .hashStart =>
       -- TPM12_IO_Hash_Start: any error puts the TPM into the failed state
       if s.postInit then ({ s with failed := true }, { rc := TPM_INVALID_POSTINIT })
@@ -198,5 +214,20 @@ def step (H : Hash) (s : St) : Op → St × Obs
   | .estReset loc =>
       -- needs locality 3 or 4; does not look at the failed state or postInitialise
       if locAllowed 24 loc then ({ s with established := false }, { rc := 0 }) else (s, { rc := TPM_BAD_LOCALITY })
+
+/-- is the operation an ordinal (goes through `TPM_Process_Preprocess`) rather than a direct TIS / library call? -/
+def Op.isOrdinal : Op → Bool
+  | .hashStart | .hashData _ | .hashEnd | .estGet | .estReset _ => false
+  | _ => true
+
+/-- `TPM_Process_Preprocess` + ordinal: every ordinal other than TPM_Startup deletes the saved state first; TPM_Startup
+    deletes it afterwards, whatever its outcome (a refused Startup — postInitialise FALSE — does so too) -/
+def stepCmd (H : Hash) (s : St) (op : Op) : St × Obs :=
+  match op with
+  | .startup _ =>
+      let r := step H s op
+      ({ r.1 with saved := none, stateSaved := false }, r.2)
+  | _ =>
+      if op.isOrdinal && s.stateSaved then step H { s with saved := none, stateSaved := false } op else step H s op
 
 end TpmVerif.Model.Tpm12.Core
